@@ -132,6 +132,10 @@ def check_C16(tier):
     for n in missing:
         tgt = dict(table)[n]
         chk.finding("C16:table:TargetMissing:%s" % n, "EEMS 2.0 name %s is mapped to %s, which no library defines" % (n, tgt), {"name": n, "target": tgt})
+    changed = core.parse_printt(r0.out, "CHANGED")
+    for n in (sorted(changed[0][1]) if changed else []):
+        chk.finding("C16:table:MeaningChanged:%s" % n, "EEMS 2.0 name %s is mapped to %s, not to the MPilot command with its EEMS 2.0 meaning (MPEems2.Meaning)" % (n, dict(table).get(n)),
+                    {"name": n, "target": dict(table).get(n)})
     cfg = os.path.join(cfgd, "e.cfg")
     with open(cfg, "w") as f:
         f.write("CONSTANTS AllKinds = FALSE Pairs = FALSE\nINIT Init\nNEXT Next\nCHECK_DEADLOCK FALSE\nINVARIANT ImageIsV3\nINVARIANT ConvertIdempotent\nINVARIANT ShapeKept\n")
